@@ -67,6 +67,7 @@ pub fn replay(property: &str, part: &str, case: &serde_json::Value) -> Option<Re
         ("C11", "queued-calls") => replay_part(&c11::Queued, case, 1),
         ("C16", "over-the-wire") => replay_part(&c16::OverTheWire, case, 1),
         ("C18", "many-peers") => replay_part(&c18::ManyPeers, case, 1),
+        ("C18", "first-contact-race") => replay_part(&c18::FirstContactRace, case, 3),
         ("C18", "cancel-storm") => replay_part(&c18::CancelStorm, case, 1),
         ("C09", "disconnect-under-readers") => replay_part(&c09::DisconnectUnderReaders, case, 3),
         ("C05", "close-notice-race") => replay_part(&c05::CloseNoticeRace, case, 3),
@@ -74,6 +75,7 @@ pub fn replay(property: &str, part: &str, case: &serde_json::Value) -> Option<Re
         ("C11", "calls") => replay_part(&c11::Calls, case, 1),
         ("C15", "codec") => replay_part(&c15::Codec, case, 1),
         ("C15", "network") => replay_part(&c15::Net, case, 1),
+        ("C15", "tiny-limits") => replay_part(&c15::TinyLimits, case, 1),
         ("C15", "no-limit") => replay_part(&c15::NoLimit, case, 1),
         ("C12", "abandon-sweep") => replay_part(&c12::Sweeps, case, 1),
         ("C12", "abandon-history") => replay_part(&c12::Histories, case, 1),
